@@ -1129,6 +1129,12 @@ fn wrap32(v: i64) -> i64 {
 }
 
 fn gen_data_block(rng: &mut Rng, out: &mut Vec<u8>, ntok: usize, zone_pts: i32, other_pts: i32, n_cvt: i32, n_sto: i32, in_glyph: bool) {
+    gen_data_block_sel(rng, out, ntok, zone_pts, other_pts, n_cvt, n_sto, in_glyph, false)
+}
+
+/// `chains_only`: only the register-chain tokens (zone pointers, a reference point writer, a reader)
+#[allow(clippy::too_many_arguments)]
+fn gen_data_block_sel(rng: &mut Rng, out: &mut Vec<u8>, ntok: usize, zone_pts: i32, other_pts: i32, n_cvt: i32, n_sto: i32, in_glyph: bool, chains_only: bool) {
     // a point index: around this zone's size, around the other zone's size (the zone pointers may differ), or random
     let pix = |rng: &mut Rng| -> i32 {
         match rng.below(6) {
@@ -1138,7 +1144,8 @@ fn gen_data_block(rng: &mut Rng, out: &mut Vec<u8>, ntok: usize, zone_pts: i32, 
         }
     };
     for _ in 0..ntok {
-        match rng.below(112) {
+        let sel = if chains_only { 105 + rng.below(5) } else { rng.below(112) };
+        match sel {
             // ---- storage
             0..=7 => {
                 let loc = edge_ix(rng, n_sto);
@@ -1421,33 +1428,41 @@ fn gen_data_block(rng: &mut Rng, out: &mut Vec<u8>, ntok: usize, zone_pts: i32, 
                         out.push(z);
                     }
                 }
+                // a stale reference point that is out of range: only the writer below can repair it
+                if rng.chance(1, 2) {
+                    push_val(out, zone_pts.max(other_pts) + rng.below(3) as i32);
+                    out.push(*rng.pick(&[0x10u8, 0x11, 0x12]));
+                }
+                let valid_both = zone_pts.min(if other_pts > 0 { other_pts } else { zone_pts }).max(1);
                 for _ in 0..1 + rng.below(2) {
-                    // writers
+                    // writers (mostly with a point that is valid in both zones)
+                    let wp = if rng.chance(3, 4) { rng.below(valid_both as u64) as i32 } else { pix(rng) };
+                    let wc = if rng.chance(3, 4) && n_cvt > 0 { rng.below(n_cvt as u64) as i32 } else { point_ix(rng, n_cvt) };
                     match rng.below(6) {
                         0 => {
                             push_val(out, pix(rng));
                             out.push(*rng.pick(&[0x10u8, 0x11, 0x12]));
                         }
                         1 => {
-                            push_val(out, pix(rng));
+                            push_val(out, wp);
                             out.push(*rng.pick(&[0x2Eu8, 0x2F]));
                         }
                         2 => {
-                            push_val(out, pix(rng));
-                            push_val(out, point_ix(rng, n_cvt));
+                            push_val(out, wp);
+                            push_val(out, wc);
                             out.push(*rng.pick(&[0x3Eu8, 0x3F]));
                         }
                         3 => {
-                            push_val(out, pix(rng));
+                            push_val(out, wp);
                             out.push(0xC0 + rng.below(32) as u8);
                         }
                         4 => {
-                            push_val(out, pix(rng));
-                            push_val(out, point_ix(rng, n_cvt));
+                            push_val(out, wp);
+                            push_val(out, wc);
                             out.push(0xE0 + rng.below(32) as u8);
                         }
                         _ => {
-                            push_val(out, pix(rng));
+                            push_val(out, wp);
                             push_val(out, 8);
                             out.push(*rng.pick(&[0x3Au8, 0x3B]));
                         }
@@ -1577,7 +1592,14 @@ fn gen_data_case(rng: &mut Rng, i: usize) -> Synth {
         sp.fpgm = f;
     }
     match i % 10 {
-        0..=3 => {
+        3 => {
+            // reference point writers followed by readers, zone pointers mixed
+            let mut g = vec![];
+            let n = 1 + rng.below(4) as usize;
+            gen_data_block_sel(rng, &mut g, n, gp, twi, cvt, sto, true, true);
+            sp.glyph = Some(g);
+        }
+        0..=2 => {
             let mut g = vec![];
             let n = 1 + rng.below(9) as usize;
             gen_data_block(rng, &mut g, n, gp, twi, cvt, sto, true);
